@@ -536,4 +536,9 @@ example : Translated.incdecNewValue 9223372036854775807 1 = .err "increment or d
     Translated.getrangeWindow b!"hello" (-9223372036854775808) 9223372036854775807 = .ok b!"hello" ∧
     Translated.getrangeWindow b!"" 0 0 = .ok b!"" := by decide +kernel
 
+/-- ZREVRANGE: the window handed to the handler's ZRange is `(-stop-1, -start-1)` – the arguments of that call as
+translated from the current source -/
+theorem C12_source_zrevrange_window (start stop : Int) :
+    Translated.zrevrangeWindow start stop = (-stop - 1, -start - 1) := Translated.zrevrangeWindow_eq start stop
+
 end GoRedis
